@@ -100,7 +100,7 @@ theorem flush_backlog_congr (g : Cfg) (s t : S) (ks : List KAns) (h1 : t.closed 
       unfold flushLoop
       rw [← h]
       split
-      · rw [wl_cResetRead, wl_cResetRead, h]
+      · rw [wl_cResetRead, wl_cResetRead]; show a.wl.map Item.todo = b.wl.map Item.todo; rw [h]
       · simp only
         split
         · exact ih a b ks h
